@@ -55,4 +55,22 @@ CHECKS = {
               "mutated texts are logged and validated by Trace_Codec.tla."),
         design_ref="DESIGN.md section 7 C10",
         note="Grid + random samples with the specification as oracle; not a proof over all 2^64 values. Trusted: TLC, the limb arithmetic of the spec."),
+    "C03": dict(
+        engine="tlc + h-crdt",
+        technique="TLC exhaustive model checking of MC_OrswotMerge (merge laws as invariants) + replay of every transition and law evaluation on real OrSWotSet replicas",
+        text=("Replicas apply gap-free prefixes (or in-window subsets) of a global operation log, merge and repair each other; TLC checks "
+              "commutativity, associativity, idempotence and mutual-merge indistinguishability on the faithful transcription of merge() in "
+              "every reachable state; every transition is re-executed on real OrSWotSet<2> replicas (zero drift expected) and the same laws "
+              "are evaluated with the real merge() on every distinct state."),
+        design_ref="DESIGN.md section 7 C03",
+        note="Bounded: 2 keys, 2 origins, 2-3 replicas, <= 3 operations, <= 2 merge/repair transitions; distinct timestamps."),
+    "C05": dict(
+        engine="tlc + h-crdt",
+        technique="TLC exhaustive model checking of MC_OrswotMerge (DiffSpec oracle, one-exchange and mutual-repair invariants) + replay on real OrSWotSet replicas",
+        text=("For every ordered pair of reachable replica states TLC compares the faithful diff() with DiffSpec written from the statement, "
+              "checks that applying the difference (removals first / modifications first, the way the keyspace actor applies batches) leaves "
+              "nothing to fetch and that mutual repair equalises live ids; the harness repeats all three clauses with the real diff(), "
+              "will_apply() and mutators on every distinct state."),
+        design_ref="DESIGN.md section 7 C05",
+        note="Same bounds as C03. The actor/poller level of the exchange is covered by the Keyspace/Cluster models."),
 }
